@@ -48,6 +48,40 @@ def deps_table(cargo_toml: str) -> str:
     return m.group(1).strip() + "\n"
 
 
+FILE_GROUP = {"c_uci.rs": "uci", "c_move.rs": "move", "c_piece.rs": "piece", "c_position.rs": "position", "c_gamestate.rs": "gamestate",
+              "c_chess.rs": "core", "c_moves.rs": "moves", "instances.rs": "moves", "c_fen.rs": "fen"}
+ALL_GROUPS = sorted(set(FILE_GROUP.values()) | {"rt"})
+
+
+def group_of(harness: str) -> str:
+    for prefix, g in [("uci::verif_uci::", "uci"), ("chess::move_struct::verif_move::", "move"), ("chess::piece::verif_piece::", "piece"),
+                      ("chess::position::verif_position::", "position"), ("chess::gamestate::verif_gamestate::", "gamestate"),
+                      ("chess::verif_chess::inst::", "moves"), ("chess::verif_chess::moves::", "moves"), ("chess::verif_chess::fen::", "fen"),
+                      ("chess::verif_chess::roundtrip_", "rt"), ("chess::verif_chess::", "core")]:
+        if harness.startswith(prefix):
+            return g
+    return "core"
+
+
+def gate_groups(contracts: str, harnesses) -> set:
+    """rewrite `kani::proof/stub/unwind` attributes in the scratch copy so that they depend on cfg verif_grp_<group>"""
+    needed = set(ALL_GROUPS) if harnesses is None else {group_of(h) for h in harnesses if h}
+    for fname, g in FILE_GROUP.items():
+        path = os.path.join(contracts, fname)
+        if not os.path.exists(path):
+            continue
+        t = open(path).read()
+        t = t.replace("cfg_attr(kani, kani::", f"cfg_attr(all(kani, verif_grp_{g}), kani::")
+        t = re.sub(r"#\[kani::(proof|unwind\([^)]*\)|stub\([^\]]*\))\]", lambda m: f"#[cfg_attr(verif_grp_{g}, kani::{m.group(1)})]", t)
+        if fname == "c_chess.rs":
+            a = t.find("macro_rules! rt_harness")
+            if a >= 0:
+                b = t.find("\n} }", a)
+                t = t[:a] + t[a:b].replace("verif_grp_core", "verif_grp_rt") + t[b:]
+        open(path, "w").write(t)
+    return needed
+
+
 def generate(out: str, repo: str = REPO, verif: str = VERIF, harnesses=None) -> dict:
     src = os.path.join(repo, "src")
     eng = os.path.join(out, "src", "engine")
@@ -91,7 +125,13 @@ def generate(out: str, repo: str = REPO, verif: str = VERIF, harnesses=None) -> 
             f.write(f'#[path = "{p}"]\nmod {m};\n')
         f.write("fn main() {}\n")
 
-    info = {"appended": [], "slices": []}
+    # ---- harness groups: only the groups this run needs become Kani harnesses (code generation costs
+    # about 1 s per harness); the functions themselves are always compiled, only the kani::* attributes are gated
+    groups = gate_groups(contracts, harnesses)
+    with open(os.path.join(out, "build.rs"), "w") as f:
+        f.write("fn main() {\n" + "".join(f'    println!("cargo:rustc-cfg=verif_grp_{g}");\n' for g in sorted(groups)) + "}\n")
+
+    info = {"appended": [], "slices": [], "harness_groups": sorted(groups)}
     for rel, (modname, cfile) in MODS.items():
         target = os.path.join(eng, rel)
         cpath = os.path.join(contracts, cfile)
